@@ -272,6 +272,39 @@ fn check_broken(c: &BrokenCase, cx: &mut Cx) -> Res {
     Ok(())
 }
 
+/// A complete, valid document followed by text that is neither white space nor a RON comment is not
+/// valid RON (two concatenated documents, a stray bracket, a log line, a version string): refused.
+const TAILS: [&str; 14] = [")", ",", "x", "\n1.2.3\n", "\n2024-01-01T00:00:00Z  INFO done\n", "(", "]", "}", "\"", "()", "\n\n0", " None", "\u{feff}x", "\n/ not a comment"];
+fn check_trailing(c: &(crate::model::MZerv, usize, bool), cx: &mut Cx) -> Res {
+    let (base, tail, twice) = c;
+    cx.nt();
+    let good = raw_ron(&base.schema, &base.vars);
+    match cli::version(&cli::sv(&["--source", "stdin"]), Some(&good)) {
+        cli::Run::Ok(_) => {}
+        other => return fail(format!("harness: the plain document is rejected: {}\n{good}", other.describe())),
+    }
+    // white space and comments after the document are fine
+    for ok_tail in ["\n", "  \n\t", "\n// trailing comment\n", " /* block */ "] {
+        let doc = format!("{good}{ok_tail}");
+        if let cli::Run::Panic(p) = cli::version(&cli::sv(&["--source", "stdin"]), Some(&doc)) {
+            return fail(format!("panic on a document followed by {ok_tail:?}: {p}"));
+        }
+    }
+    let text = if *twice { format!("{good}\n{good}") } else { format!("{good}{}", TAILS[tail % TAILS.len()]) };
+    cx.label(if *twice { "two-documents" } else { "stray-tail" });
+    for f in ["semver", "pep440", "zerv"] {
+        for flow in [false, true] {
+            let r = if flow { cli::flow(&cli::sv(&["--source", "stdin", "--output-format", f]), Some(&text)) } else { cli::version(&cli::sv(&["--source", "stdin", "--output-format", f]), Some(&text)) };
+            match r {
+                cli::Run::Ok(o) => return fail(format!("{} rendered ({f}) a stdin input that is a complete document followed by {:?} - not valid RON: {o:?}", if flow { "flow" } else { "version" }, if *twice { "a second document" } else { TAILS[tail % TAILS.len()] })),
+                cli::Run::Panic(p) => return fail(format!("panic on a document with trailing content: {p}")),
+                _ => {}
+            }
+        }
+    }
+    Ok(())
+}
+
 /// arbitrary documents: error, or an output that itself is lossless; never a panic
 fn check_garbage(doc: &String, cx: &mut Cx) -> Res {
     let r = cli::version(&cli::sv(&["--source", "stdin", "--output-format", "zerv"]), Some(doc));
@@ -317,6 +350,7 @@ pub fn property() -> Property {
         |_| gens::argv::stdin_content().prop_map(|s| s.unwrap_or_default()).boxed(),
         check_garbage,
     );
+    let trailing = RandomSub::<(crate::model::MZerv, usize, bool)>::new("trailing-content", (3_000, 60_000), |_| (zg::mzerv(false), 0usize..TAILS.len(), prop::bool::weighted(0.15)).boxed(), check_trailing);
     // L2: a real pipe between two processes
     let pipe = RandomSub::<c01::Case>::new(
         "cli-pipe",
@@ -386,13 +420,13 @@ pub fn property() -> Property {
     let _ = flags::to_argv;
     Property {
         id: "C12",
-        rule: "cases = Zerv objects (a) built directly from generated schemas x vars (quotes, backslashes, newlines, Unicode, nested custom JSON with floats/nulls/arrays, u64 edges, presets and custom schemas), (b) emitted by `version` / `flow` runs with random flags; documents with exactly one schema placement rule broken (8 rules); truncated, mutated and garbage documents. Oracle: parse(print(z)) == z and re-emit byte-identical (round-trip); every emitted object passes the independent placement validator; rendering through `--source stdin` (in-process and through a real process pipe) equals direct rendering for semver, pep440 and templates; rule-breaking documents are rejected by version and flow in every output format; arbitrary documents give an error or a lossless object, never a panic; big-documents: objects of 8-40 KiB carrying a long run of 2-, 3- or 4-byte characters at a random byte offset go through two real processes and a pipe unchanged. Non-trivial = object has a string needing escapes / non-ASCII / nested custom JSON, or is emitted by flow, or is a one-rule-broken document, or an accepted/parenthesised document; distinct = distinct cases.",
+        rule: "cases = Zerv objects (a) built directly from generated schemas x vars (quotes, backslashes, newlines, Unicode, nested custom JSON with floats/nulls/arrays, u64 edges, presets and custom schemas), (b) emitted by `version` / `flow` runs with random flags; documents with exactly one schema placement rule broken (8 rules); truncated, mutated and garbage documents; complete valid documents followed by a stray tail (bracket, word, version string, log line, a second document). Oracle: parse(print(z)) == z and re-emit byte-identical (round-trip); every emitted object passes the independent placement validator; rendering through `--source stdin` (in-process and through a real process pipe) equals direct rendering for semver, pep440 and templates; rule-breaking documents are rejected by version and flow in every output format; arbitrary documents give an error or a lossless object, never a panic; big-documents: objects of 8-40 KiB carrying a long run of 2-, 3- or 4-byte characters at a random byte offset go through two real processes and a pipe unchanged. Non-trivial = object has a string needing escapes / non-ASCII / nested custom JSON, or is emitted by flow, or is a one-rule-broken document, or an accepted/parenthesised document; distinct = distinct cases.",
         assumptions: vec![
             "custom: Null (source none) and {} (stdin default) are both 'no custom variables'",
             "dirty objects are not compared through the pipe when they print a timestamp (the piped run takes the wall clock)",
             "epoch Some(0) is normalised away by the pipe",
         ],
-        subs: vec![emit.boxed(), broken.boxed(), garbage.boxed(), pipe.boxed(), big.boxed()],
+        subs: vec![emit.boxed(), broken.boxed(), trailing.boxed(), garbage.boxed(), pipe.boxed(), big.boxed()],
         known_repro: vec![],
     }
 }
